@@ -188,6 +188,9 @@ func Universe() []UVal {
 		{Name: "manyukey", Go: map[any]any{uint(3): "u3", uint8(2): "u2", -1: "m1", uint64(math.MaxUint64): "max", 1.5: "f"}}, {Name: "mnukey", Go: map[NUint]int{7: 1, 3: 2}},
 		{Name: "mi8key", Go: map[int8]int{-128: 1, 127: 2, 0: 3}}, {Name: "mboolkey", Go: map[bool]string{true: "t", false: "f"}}, {Name: "mfloatkey", Go: map[float64]string{1.5: "a", -0.5: "b", 1e300: "c"}},
 		{Name: "u64mid", Go: uint64(1) << 63}, {Name: "umaxslice", Go: []uint64{math.MaxUint64, 0, 1 << 63}}, {Name: "mixedsign", Go: []any{uint8(200), -7, uint64(math.MaxUint64), -1, uint(3), 2}, Small: true},
+		// a NaN key can be listed but never looked up; two of them have no order
+		{Name: "mnankey", Go: map[float64]any{math.NaN(): 1, 2: []any{1}}}, {Name: "mnankey1", Go: map[float64]string{math.NaN(): "a"}, Small: true},
+		{Name: "mnankeyany", Go: map[any]any{math.NaN(): 1, math.Inf(1): 2, "a": 3, float32(math.NaN()): []any{"x"}}}, {Name: "mnankeyin", Go: []any{map[float64]any{math.NaN(): map[string]any{"k": 1}}}},
 		{Name: "fn", Go: func() any { return 1 }},
 		{Name: "chan", Go: make(chan int)},
 		{Name: "complex", Go: complex(1, 2)},
@@ -210,6 +213,18 @@ func PlainDataUniverse() []UVal {
 			continue
 		}
 		out = append(out, u)
+	}
+	return out
+}
+
+// ComparableUniverse is the plain-data universe without the values that hold a NaN: NaN does not equal itself, so
+// the coherence laws of the comparison operators (reflexivity above all) are not stated for them.
+func ComparableUniverse() []UVal {
+	var out []UVal
+	for _, u := range PlainDataUniverse() {
+		if !strings.HasPrefix(u.Name, "mnankey") {
+			out = append(out, u)
+		}
 	}
 	return out
 }
